@@ -35,7 +35,7 @@ ASSUMPTIONS = [
 MANDATORY = ["broadcast:omits-singleton", "transpose", "swapaxes", "rollaxis", "newaxis", "newaxis:values", "squeeze", "repeat", "broadcast", "broadcast_arrays",
              "square-equal-labels", "composition", "ndim:4", "ndim:0"]
 
-ATTRS = {"units": "m", "hist": [1, {"k": 2}]}
+ATTRS = {"units": "m", "hist": [1, {"k": 2}], "_FillValue": -999, "max": 3}        # (any key may be metadata: underscore names, names of methods)
 
 
 def budget(tier):
